@@ -251,14 +251,13 @@ def model_numbers(val):
 
 
 def num_region(flags) -> str | None:
-    """flags = (numeric_exclusive, exclusive_dominates, max_not_zero_with_min, multiple_satisfiable) evaluated by the model."""
-    ne, ed, mz, ms = flags
+    """flags = (numeric_exclusive, exclusive_dominates, multiple_satisfiable) evaluated by the model.  The former region
+    max_zero (finding C03-F1) is gone since the repair 0b606a31: a bad value for a 0 bound is an ordinary failure again."""
+    ne, ed, ms = flags
     if not ne:
         return "bool_exclusive"
     if not ed:
         return "exclusive_and_inclusive"
-    if not mz:
-        return "max_zero"
     if not ms:
         return "unsatisfiable_range"
     return None
@@ -271,11 +270,13 @@ def stage_numbers(chk, n):
     oks = [draw_ok(s) for s in schemas]
     exprs = [
         f"(positive_number_plan {c_num_schema(s)} {cbool(ok)}, negative_numbers {c_keys(s)} [], "
-        f"(numeric_exclusive {c_num_schema(s)}, exclusive_dominates {c_num_schema(s)}, max_not_zero_with_min {c_num_schema(s)}, multiple_satisfiable {c_num_schema(s)}))"
+        f"(numeric_exclusive {c_num_schema(s)}, exclusive_dominates {c_num_schema(s)}, multiple_satisfiable {c_num_schema(s)}), "
+        f"positive_number_plan_legacy {c_num_schema(s)} {cbool(ok)})"
         for s, ok in zip(schemas, oks)
     ]
     model = core.coq_eval(IMPORTS, exprs)
     agree = rejected = checked_values = 0
+    stats_legacy = []
     for s, ok, m in zip(schemas, oks, model):
         impl = impl_numbers(s)
         if impl["positive"][1].startswith("raises") or impl["negative"][1] != "Completed" or (not ok and impl["positive"][1] != "Completed"):
@@ -292,6 +293,10 @@ def stage_numbers(chk, n):
             chk.count("numeric:negative-upper-bound+multipleOf" + (":exact-multiple" if upper % s["multipleOf"] == 0 else ":not-a-multiple"))
         same = impl == mod
         if not same:
+            legacy = [[popt(v), d] for v, d in m[4]]  # Coq prints (.., flags, (l, o)) with the last pair parenthesised
+            if impl["positive"][0] == legacy and legacy != mod["positive"][0]:
+                chk.count("numeric:behaves-like-the-planner-before-0b606a31")
+                stats_legacy.append(s)
             chk.disagree("cover_schema_iter (numeric) vs positive_number_plan/negative_numbers", s, impl, mod)
         else:
             agree += 1
@@ -317,6 +322,8 @@ def stage_numbers(chk, n):
             checked_values += 1
             if verdict:
                 chk.fail("value labelled negative conforms to its schema", {"schema": s, "value": value, "description": d, "at": key}, region=None)
+    if stats_legacy:
+        chk.notes.append(f"{len(stats_legacy)} schemas are planned exactly as by the planner before the repair 0b606a31 (fixed finding C03-F1 is back?), e.g. {stats_legacy[0]}")
     chk.stages["correspondence_numbers"] = {"schemas": len(schemas), "corpus": len(corpus), "agree": agree, "rejected_by_foreign_generator": rejected, "values_validated": checked_values}
 
 
@@ -974,7 +981,7 @@ def operation_value_oracle(chk, ctxs, stats):
         IMPORTS,
         [
             f"(fst (positive_number_plan {c_num_schema(numeric[k])} true), (numeric_exclusive {c_num_schema(numeric[k])}, exclusive_dominates {c_num_schema(numeric[k])}, "
-            f"max_not_zero_with_min {c_num_schema(numeric[k])}, multiple_satisfiable {c_num_schema(numeric[k])}))"
+            f"multiple_satisfiable {c_num_schema(numeric[k])}))"
             for k in keys
         ],
     )
